@@ -37,6 +37,7 @@ package driver
 //@ func (*Driver).execute
 //@   props C13
 //@   arith int
+//@   logged
 //@   requires d != nil
 //@   requires wf_actions: forall i int :: 0 <= i && i < len(resultActions) ==> resultActions[i] != nil && cast(resultActions[i], *actions.TriggerSync) != nil
 //@   requires wf_commit: forall i int :: 0 <= i && i < len(resultActions) && istype(resultActions[i], *actions.Commit) ==> cast(resultActions[i], *actions.Commit).Value != nil
@@ -53,7 +54,37 @@ package driver
 //@   props C13
 //@   arith int
 //@   requires d != nil && commit != nil && commit.Value != nil
-//@   assigns dirty, calls_Flush, calls_DeleteWALEntries, calls_OnCommit, arg_DeleteWALEntries_height
+//@   assigns dirty, calls_Flush, calls_DeleteWALEntries, calls_OnCommit, arg_DeleteWALEntries_height, smHeight
 //@   callsite DeleteWALEntries@*: after_decision_delivered: calls_OnCommit == old(calls_OnCommit) + 1 && height == commit.Height
 //@   callsite Flush@*: after_prune: calls_DeleteWALEntries == old(calls_DeleteWALEntries) + 1
 //@   ensures durable: result == nil ==> !dirty && calls_OnCommit == old(calls_OnCommit) + 1 && calls_DeleteWALEntries == old(calls_DeleteWALEntries) + 1 && calls_Flush == old(calls_Flush) + 1
+
+// ---- replay after a restart: every logged entry of the current height goes back in ----------------
+// The body of the loop over the stored log (the range-over-func closure replay$1, arg0 = the entry,
+// arg1 = the load error): an entry below the state machine's height is skipped, every other entry
+// - whatever its kind - is handed to the state machine exactly once and the resulting actions are
+// executed in replay mode (nothing is written to the log or sent again).
+//@ ghost var smHeight types.Height
+//@ ghost var entryHeight types.Height
+//@ extern func github.com/NethermindEth/juno/consensus/tendermint.StateMachine.Height
+//@   sets smHeight = result
+//@ extern func github.com/NethermindEth/juno/consensus/types/wal.Entry.GetHeight
+//@   sets entryHeight = result
+//@ extern func github.com/NethermindEth/juno/consensus/tendermint.StateMachine.ProcessWAL
+//@   logged as ProcessWAL
+//@   ensures forall i int :: 0 <= i && i < len(result) ==> result[i] != nil && cast(result[i], *actions.TriggerSync) != nil
+//@   ensures forall i int :: 0 <= i && i < len(result) && istype(result[i], *actions.Commit) ==> cast(result[i], *actions.Commit).Value != nil
+//@ extern func fmt.Errorf
+//@   ensures result != nil
+//@ func (*Driver).replay$1
+//@   props C13
+//@   arith int
+//@   nosafe
+//@   requires *d != nil
+//@   modifies *
+//@   assigns smHeight, entryHeight, calls_ProcessWAL, arg_ProcessWAL_walEntry, dirty, calls_SetWALEntry, calls_Flush, calls_DeleteWALEntries, calls_Broadcast, calls_OnCommit, arg_SetWALEntry_entry, arg_DeleteWALEntries_height, calls_execute, arg_execute_ctx, arg_execute_isReplaying, arg_execute_resultActions
+//@   callsite execute@*: in_replay_mode: $2
+//@   callsite ProcessWAL@*: the_entry: $1 == arg0
+//@   ensures current_entries_replayed: arg1 == nil && entryHeight >= smHeight ==> calls_ProcessWAL == old(calls_ProcessWAL) + 1 && calls_execute == old(calls_execute) + 1
+//@   ensures stale_entries_skipped: arg1 == nil && entryHeight < smHeight ==> calls_ProcessWAL == old(calls_ProcessWAL) && calls_execute == old(calls_execute)
+//@   ensures load_error_stops: arg1 != nil ==> !result && calls_ProcessWAL == old(calls_ProcessWAL)
